@@ -134,8 +134,12 @@ def lookup_checks(rep, rng, cases):
         tr = RDTrajectory(data=UnitArray([0.0] * len(ts), "molecule"), t_sample=UnitArray(tvals, tu), system=system)
         qv = UnitValue((q / 2.0) * scale[qu] if qu in scale else (q / 2.0) / TIME[qu], qu)
         rep.case(["lookup", ts, q, tu, qu])
-        got = {p: tr.get_sample_index(qv, p) for p in ("infeq", "supeq", "closest")}
-        got_s = tr.get_sample_index(str(qv), "closest")
+        try:
+            got = {p: tr.get_sample_index(qv, p) for p in ("infeq", "supeq", "closest")}
+            got_s = tr.get_sample_index(str(qv), "closest")
+        except Exception as e:  # noqa  (an exception out of a lookup is an outcome, not a failure of the check)
+            rep.violation("lookup", "traj:lookup:exception", {"times_ticks": ts, "query_ticks": q, "time_unit": tu, "query_unit": qu, "exc": repr(e)[:200]})
+            continue
         want_inf = None if c["inf"] == 0 else c["inf"] - 1
         want_sup = None if c["sup"] == 0 else c["sup"] - 1
         tag = {"times_ticks": ts, "query_ticks": q, "time_unit": tu, "query_unit": qu, "got": got}
